@@ -739,8 +739,13 @@ class Gen:
                 # half of the lists are passed the way a table-driven caller does: a slice spread into Morphism, another
                 # Morphism over the whole table first, then the morphism under test over a PREFIX of the same slice
                 # (the library must not have touched the caller's slice)
+                if rng.random() < 0.1:
+                    # a list that consists of nil entries only (an optional iso switched off): nothing happens
+                    seq, nrep, nest = [None] * rng.choice([1, 1, 2]), 0, 0
+                    nnil = len(seq)
+                    go += ["_ = e%d" % i for i in range(len(distinct))]
                 reuse = len(seq) >= 2 and rng.random() < 0.5
-                forked = len(distinct) >= 4 and rng.random() < 0.3
+                forked = len(distinct) >= 4 and rng.random() < 0.3 and any(x is not None for x in seq)
                 if forked:
                     # a morphism extended twice: ext := Morphism(Morphism(base…), x); m := Morphism(ext, a); another one,
                     # Morphism(ext, b), is built afterwards and thrown away (a result must not share what a later call
@@ -768,7 +773,10 @@ class Gen:
                     nnil = sum(1 for x in seq if x is None)
                 else:
                     go.append("m := optics.Morphism[%s, %s](%s)" % (S.name, T.name, ", ".join(ego(x) for x in seq)))
-                    distinct_used = distinct
+
+                    def flat0(x):
+                        return [x] if isinstance(x, int) else ([] if x is None else [z for y in x for z in flat0(y)])
+                    distinct_used = [distinct[i] for i in sorted(set(z for x in seq for z in flat0(x)))]
                 line = "M " + " ".join(eline(x) for x in seq)
                 entries = seq
             snap = "%s(s)+\",\"+%s(t)" % (pr(S), pr(T))
